@@ -88,9 +88,8 @@ def indexRes (t nm : Name) (w : Cat) : R Val × Cat :=
   if (t, nm) ∈ w.indexes then (.exc .operationalError, w)
   else (.ok .none, { w with indexes := w.indexes ++ [(t, nm)] })
 
-/-- `conn._SO_createIndex(soClass, index)` (every dialect but MySQL, whose `ALTER TABLE … ADD INDEX` the reader
-    does not follow) -/
-theorem connCreateIndex (n : Nat) (d : Dialect) (hd : d ≠ .mysql) (c : Caps) (decl : Decl) (c0 : Val) (x : ClsX)
+/-- `conn._SO_createIndex(soClass, index)`, all seven connection classes -/
+theorem connCreateIndex (n : Nat) (d : Dialect) (c : Caps) (decl : Decl) (c0 : Val) (x : ClsX)
     (ix : Index) (w : Cat) (h1 : 32 ∉ decl.tableName) (h2 : 32 ∉ ix.name) :
     callNW prog ddlI EX (n + 3) w (.meth (connCls d) M__SO_createIndex) [connV d c, soClassV decl c0 x, ixV decl ix] =
       indexRes decl.tableName ix.name w := by
@@ -98,7 +97,7 @@ theorem connCreateIndex (n : Nat) (d : Dialect) (hd : d ≠ .mysql) (c : Caps) (
     cases d <;> rfl
   rw [callXW_succ _ _ _ _ _ hr]
   have ht := createIndexSQL_eq n d c decl c0 x ix
-  have he := exec_index d hd decl ix w h1 h2
+  have he := exec_index_all d decl ix w h1 h2
   by_cases hm : (decl.tableName, ix.name) ∈ w.indexes
   · rw [if_pos hm] at he
     pyw [DBAPI___SO_createIndex_fn, DBAPI___SO_createIndex, DBAPI___SO_createIndex_s0, indexRes]
